@@ -169,9 +169,9 @@ def gen_net(rng, idx, profile):
     menu = {
         "conv": ["conv", "conv", "conv1x1", "dwconv", "maxpool", "avgpool_valid", "relu", "fc_end", "tconv", "fc_batch"],
         "elementwise": ["add_self", "add_skip", "mul_const", "sub_const", "add_const", "minmax", "relu", "lrelu", "quantize",
-                        "conv1x1", "mul_skip", "hswish", "add_const", "sqdiff"],
+                        "conv1x1", "mul_skip", "hswish", "add_const", "sqdiff", "abs"],
         "memory": ["concat", "split_concat", "slice", "pad_conv", "reshape_back", "conv1x1", "relu", "maxpool", "pad", "squeeze_expand",
-                   "transpose"],
+                   "transpose", "slice_op", "split_v", "pack_end", "unpack_end", "abs"],
         "cascade": ["conv", "conv", "dwconv", "maxpool", "avgpool_valid", "conv1x1", "add_skip", "relu"],
         "weights": ["conv", "conv1x1", "conv1x1", "fc_end", "dwconv"],
         "cpu": ["conv_cpu", "conv", "add_self", "relu", "maxpool", "conv1x1", "conv_cpu", "concat"],
@@ -182,9 +182,10 @@ def gen_net(rng, idx, profile):
     cur = x
     avoid = set()
     nops = rng.randint(1, 5 if profile != "cascade" else 4)
+    stop, unpacked = False, None
     for step in range(nops):
         xt = b.t(cur)
-        if len(xt.shape) != 4:
+        if len(xt.shape) != 4 or stop:
             break
         kind = rng.choice(menu.get(profile, allk))
         # The one composition that hits the open finding (known_findings.txt, reproduced deterministically by a corpus
@@ -251,6 +252,43 @@ def gen_net(rng, idx, profile):
                 other = b.const(shp, xt.dtype, r.randint(lo, hi + 1, int(np.prod(shp))), [netgen.rand_scale(rng)], [netgen.rand_zp(rng, xt.dtype)])
             new = b.fm(list(xt.shape), xt.dtype, scale=float(np.float32(rng.choice([0.05, 0.5, 1.0, 4.0]) * rng.uniform(0.5, 1.0))))
             b.net.ops.append(netgen.Op("SQUARED_DIFFERENCE", [cur, other], [new], ("SquaredDifferenceOptions", {})))
+        elif kind == "abs" and xt.dtype != "uint8":
+            new = b.fm(list(xt.shape), xt.dtype) if rng.random() < 0.7 else b.fm(list(xt.shape), xt.dtype, scale=xt.scales[0])
+            b.net.ops.append(netgen.Op("ABS", [cur], [new], ("AbsOptions", {})))
+        elif kind == "slice_op" and hh >= 2:
+            b0, b1 = rng.randint(0, hh - 1), rng.randint(0, ww - 1)
+            sz = [1, rng.randint(1, hh - b0), rng.randint(1, ww - b1), cc]
+            bt = b.const([4], "int32", [0, b0, b1, 0], name=b.fresh("begin"))
+            st_ = b.const([4], "int32", sz, name=b.fresh("size"))
+            new = b.fm(sz, xt.dtype, scale=xt.scales[0], zp=xt.zps[0])
+            b.net.ops.append(netgen.Op("SLICE", [cur, bt, st_], [new], ("SliceOptions", {})))
+        elif kind == "split_v" and cc >= 2:
+            a_ = rng.randint(1, cc - 1)
+            szt = b.const([2], "int32", [a_, -1] if rng.random() < 0.5 else [a_, cc - a_], name=b.fresh("sizes"))
+            axt = b.const([], "int32", [3], name=b.fresh("axis"))
+            o1 = b.fm([1, hh, ww, a_], xt.dtype, scale=xt.scales[0], zp=xt.zps[0])
+            o2 = b.fm([1, hh, ww, cc - a_], xt.dtype, scale=xt.scales[0], zp=xt.zps[0])
+            b.net.ops.append(netgen.Op("SPLIT_V", [cur, szt, axt], [o1, o2], ("SplitVOptions", dict(NumSplits=2))))
+            new = b.concat([b.unary("RELU", o2), o1], 3)
+            _same_quant(b, new, cur)
+        elif kind == "pack_end" and (hh == 1 or rng.random() < 0.2):
+            # stack two HxWxC tensors; an axis that gives the 4-D result a leading dimension > 1 is the open finding
+            other = b.unary("RELU", cur)
+            s1, s2 = b.reshape(cur, [hh, ww, cc]), b.reshape(other, [hh, ww, cc])
+            ax = rng.choice([0, 1, 2, 3, 3])
+            os_ = [hh, ww, cc][:ax] + [2] + [hh, ww, cc][ax:]
+            new = b.fm(os_, xt.dtype, scale=xt.scales[0], zp=xt.zps[0])
+            b.net.ops.append(netgen.Op("PACK", [s1, s2], [new], ("PackOptions", dict(ValuesCount=2, Axis=ax))))
+            stop = True
+        elif kind == "unpack_end" and min(hh, ww) <= 4:
+            ax = 1 if hh <= ww else 2
+            n_ = xt.shape[ax]
+            os_ = [d for i_, d in enumerate(xt.shape) if i_ != ax]
+            outs_u = [b.fm(os_, xt.dtype, scale=xt.scales[0], zp=xt.zps[0]) for _ in range(n_)]
+            b.net.ops.append(netgen.Op("UNPACK", [cur], outs_u, ("UnpackOptions", dict(Num=n_, Axis=ax))))
+            unpacked = outs_u
+            new = outs_u[0]
+            stop = True
         elif kind == "hswish" and xt.dtype != "int16":
             new = b.unary("HARD_SWISH", cur)
         elif kind == "transpose" and xt.dtype != "int16":
@@ -260,7 +298,7 @@ def gen_net(rng, idx, profile):
             b.net.ops.append(netgen.Op("TRANSPOSE", [cur, pt], [new], ("TransposeOptions", {})))
         elif kind == "concat":
             other = rng.choice([b.unary("RELU", cur), b.pool(cur, "MAX_POOL_2D", (3, 3), (1, 1), "SAME"), cur])
-            axis = rng.choice([3, 3, 1, 2])
+            axis = rng.choice([3, 3, 1, 2] * 4 + [0])      # axis 0: OFM batch 2 (open finding / CPU fallback once repaired)
             new = b.concat([cur, other] if rng.random() < 0.5 else [other, cur, other], axis)
             if rng.random() < 0.75:
                 _same_quant(b, new, cur)        # otherwise the inputs are requantised (approximated class)
@@ -380,7 +418,7 @@ def gen_net(rng, idx, profile):
             new = b.unary("LOGISTIC" if which == "logistic" else "TANH", cur)
         if new is not None:
             cur = new
-    outs = [cur]
+    outs = [cur] if unpacked is None or cur != unpacked[0] else list(unpacked)
     if len(live) > 2 and rng.random() < 0.2:
         extra = rng.choice(live[1:-1])
         if extra not in outs:
@@ -396,6 +434,13 @@ def corpus_net(rng, name):
     ones, a deterministic witness for the open one (known_lrelu16_reshape)"""
     import netgen
 
+    if name == "known_concat_batch_axis":
+        b = make_builder(rng, name, "int8")
+        x = b.input([1, 3, 3, 5], scale=0.05, zp=3)
+        r = b.unary("RELU", x)
+        z = b.fm([2, 3, 3, 5], "int8", scale=0.05, zp=3)
+        b.net.ops.append(netgen.Op("CONCATENATION", [x, r], [z], ("ConcatenationOptions", dict(Axis=0, FusedActivationFunction=0))))
+        return b.finish([z])
     if name == "known_mean_unit_axes":
         b = make_builder(rng, name, "int8")
         x = b.input([1, 1, 1, 12], scale=0.0146, zp=-17)
@@ -590,11 +635,25 @@ def mean_over_unit_axes(o):
     return False
 
 
+def ofm_batch_above_one(o):
+    """the source network has a CONCATENATION / PACK whose inputs have batch 1 (as 4-D tensors) but whose output has a leading
+    dimension > 1"""
+    ti = o.get("src_tinfo") or []
+    for kind, ins, outs, faf, pad, stride in o.get("src_graph") or []:
+        if kind in ("CONCATENATION", "PACK"):
+            oshape = ti[outs[0]][0]
+            if len(oshape) == 4 and oshape[0] > 1 and all(len(ti[i][0]) < 4 or ti[i][0][0] == 1 for i in ins):
+                return True
+    return False
+
+
 def classify_failure(o, ans):
     """stable key of an open known finding (see known_findings.txt), or None. Only the structure of the source network
     is consulted; the verdict itself is Lean's."""
     if ans.endswith("verdict=fail") and mean_over_unit_axes(o):
         return "mean-over-unit-axes-drops-requantisation"
+    if ans.endswith("verdict=fail") and ofm_batch_above_one(o):
+        return "ofm-batch-above-one-accepted-on-npu"
     if not (ans.endswith("verdict=fail") or "read_outside_region" in ans) or o.get("dtype") != "int16":
         return None
     g = o.get("src_graph") or []
@@ -628,7 +687,7 @@ def main():
     jobs = [(0, 0, "known_" + nm, k_inputs) for nm in ("slice_relu", "fused_act_relu", "pad_conv_reshape", "quantize_relu", "reshape_relu",
                                                               "slice_window", "lut_reshape", "cascade_stale_row", "pad_avgpool_act", "slice_of_slice", "slice_strided_conv", "fc_int16",
                                                               "slice_strided_pool", "pad_concat", "pad_strided_dw", "lrelu16_relu6", "lrelu16_reshape",
-                                                              "mean_unit_axes")]
+                                                              "mean_unit_axes", "concat_batch_axis")]
     jobs += [(ck.seed, i, PROFILES[i % len(PROFILES)], k_inputs) for i in range(n)]
     ctx = multiprocessing.get_context("fork")
     with ProcessPoolExecutor(min(16, os.cpu_count() or 4), mp_context=ctx) as ex:
